@@ -135,6 +135,15 @@ func (s *verifSpy) evaluate() (string, bool, error) {
 	return data, changed, err
 }
 
+// VerifInfoPath is the path of the build record of a label (.dawn/build/targets/… or …/sources/…).
+func (proj *Project) VerifInfoPath(rawlabel string) (string, error) {
+	l, err := label.Parse(rawlabel)
+	if err != nil {
+		return "", err
+	}
+	return proj.targetInfoPath(l), nil
+}
+
 // VerifSpy wraps the Target of every loaded runTarget. Call once, after Load and before Run.
 func (proj *Project) VerifSpy() {
 	proj.m.Lock()
